@@ -112,7 +112,17 @@ pub fn derive_paths(tree: &MNode, ch: &mut Choices, opts: PathOpts) -> Vec<Strin
     if opts.malformed && ch.chance(25) {
         let paths = all_paths(tree);
         let base = if paths.is_empty() { "$.a".to_string() } else { render_path(&paths[ch.pick(paths.len())], &mut Choices::new(&[])) };
-        let s = match ch.pick(8) {
+        let doubled = |b: &str, times: usize| -> String {
+            // double (or triple) the LAST separator of an existing path: $.a.b -> $.a..b
+            match b[2..].rfind('.') {
+                Some(p) => format!("{}{}{}", &b[..p + 2], ".".repeat(times), &b[p + 3..]),
+                None => format!("{}..b", b),
+            }
+        };
+        let s = match ch.pick(11) {
+            8 => doubled(&base, 2),
+            9 => doubled(&base, 3),
+            10 => base.replacen("$.", "$..", 1),
             0 => format!("{}[00]", base),
             1 => format!("{}[0]x", base),
             2 => format!("{}..b", base),
